@@ -141,9 +141,12 @@ def run(ctx):
         ast, src = gen.gen_program(random.Random(rng.getrandbits(48)), p)
         progs.append(("gen%d" % i, src, ["-fyield-support"] if yields else []))
     jobs, skipped = [], collections.Counter()
-    for name, src, flags in progs:
-        base = [f for f in flags if not f.startswith("-O")]
-        for fl in option_sets(rng, base, 2 if quick else 5):
+    # feature programs (gen.FEATURE_PROGRAMS): code-generation paths random generation reaches rarely, each under every
+    # option set of gen.FEATURE_OPTION_SETS (the unsimplified else transitions of -O0, empty literals kept as assignments, ...)
+    plan = [(name, src, option_sets(rng, [f for f in flags if not f.startswith("-O")], 2 if quick else 5)) for name, src, flags in progs]
+    plan += [(name, src, [list(o) for o in gen.FEATURE_OPTION_SETS]) for name, src in gen.FEATURE_PROGRAMS]
+    for name, src, osets in plan:
+        for fl in osets:
             I = export.Interner()
             r = nm.compile_source(src, fl, want_c=True, name="prog", interner=I)
             if r["verdict"] != "ok":
